@@ -104,9 +104,10 @@ type dfs struct {
 	stop     bool
 }
 
-func (d *dfs) run(prefix []int, cache bool) (*vsched.Exec, any) {
+func (d *dfs) run(prefix []int, sigs []uint64, cache bool) (*vsched.Exec, any) {
 	cfg := d.s.Cfg
 	cfg.Prefix = prefix
+	cfg.PrefixSigs = sigs
 	cfg.Bound = d.bound
 	if cache {
 		cfg.Visited = d.visited
@@ -182,7 +183,7 @@ func compact(c []int) string {
 	return b.String()
 }
 
-func (d *dfs) explore(prefix []int, depth int) {
+func (d *dfs) explore(prefix []int, sigs []uint64, depth int) {
 	if d.stop {
 		return
 	}
@@ -204,7 +205,7 @@ func (d *dfs) explore(prefix []int, depth int) {
 		}
 	}
 	useCache := d.s.Cache && (d.nshards == 1 || depth >= 2)
-	x, obs := d.run(prefix, useCache)
+	x, obs := d.run(prefix, sigs, useCache)
 	if mine {
 		d.judge(x, obs, prefix)
 	}
@@ -222,7 +223,7 @@ func (d *dfs) explore(prefix []int, depth int) {
 				continue
 			}
 			np := append(x.Choices(i), alt)
-			d.explore(np, depth+1)
+			d.explore(np, x.Sigs(i+1), depth+1)
 			if d.stop {
 				return
 			}
@@ -241,7 +242,7 @@ func exploreScenario(s *Scenario, shard, nshards int, deadline time.Time, fromBo
 		if s.Cache {
 			d.visited = map[uint64]int8{}
 		}
-		d.explore(nil, 0)
+		d.explore(nil, nil, 0)
 		// the last completed pass subsumes the earlier ones: report its counts, sum the work
 		res.Steps += d.res.Steps
 		res.Pruned += d.res.Pruned
@@ -694,8 +695,8 @@ func report(spec Spec, scs []*Scenario, items []item, results []*Result, tier st
 	for i := range scs {
 		if row := rows[i]; row != nil {
 			row.Outcomes = len(scOutcomes[i])
-			if row.BoundDone < minBound {
-				minBound = row.BoundDone
+			if scs[i].Bound > 0 && row.BoundDone < minBound {
+				minBound = row.BoundDone // deviation bounds only exist for schedule explorations
 			}
 			rowList = append(rowList, row)
 		}
@@ -759,9 +760,7 @@ func report(spec Spec, scs []*Scenario, items []item, results []*Result, tier st
 		kf = append(kf, k)
 	}
 	sort.Strings(kf)
-	if minBound == 1<<30 {
-		minBound = 0
-	}
+	boundTxt := fmt.Sprint(boundField(minBound))
 	ev := map[string]any{
 		"property_id": spec.Property,
 		"tier":        tier,
@@ -776,7 +775,7 @@ func report(spec Spec, scs []*Scenario, items []item, results []*Result, tier st
 			"rule":                          spec.Rule,
 			"samples":                       samples,
 			"exhaustive":                    exhaustive,
-			"bound_completed":               minBound,
+			"bound_completed":               boundField(minBound),
 			"pruned_by_state_cache":         pruned,
 			"step_capped_executions":        capped,
 			"scenarios":                     rowList,
@@ -805,9 +804,16 @@ func report(spec Spec, scs []*Scenario, items []item, results []*Result, tier st
 		sort.Strings(oks)
 		fmt.Printf("outcome-set digest: %s\n", hashStr(strings.Join(oks, ",")))
 	}
-	fmt.Printf("%s %s: executions=%d steps=%d states=%d outcomes=%d bound_completed=%d exhaustive=%v known=%d violations=%d wall=%.1fs\n",
-		spec.Property, tier, execs, steps, states, distinct, minBound, exhaustive, len(kf), len(viol), wall.Seconds())
+	fmt.Printf("%s %s: executions=%d steps=%d states=%d outcomes=%d bound_completed=%s exhaustive=%v known=%d violations=%d wall=%.1fs\n",
+		spec.Property, tier, execs, steps, states, distinct, boundTxt, exhaustive, len(kf), len(viol), wall.Seconds())
 	return exit
+}
+
+func boundField(b int) any {
+	if b == 1<<30 {
+		return "n/a (pure enumeration)"
+	}
+	return b
 }
 
 type replayFile struct {
